@@ -104,6 +104,22 @@ def edits():
                 pre="fn g(x: &%s, v: %s)\n{\n\tx = v;\n}\n" % (a, b)), {504}))
             out.append(("elem:%s:%s" % (a, b), wrap_main([
                 "var b: %s = %s;" % (b, lit_for(b)), "var arr: [2]%s = [%s, b];" % (a, lit_for(a))]), {504, 500, 551}))
+    # a mismatching call nested inside an argument that is itself coerced (array literal to view, structure literal to view,
+    # indexed row to view); inner array lengths in view coercions
+    half = "fn half(x: i32) -> i32\n{\n\treturn: x / 2\n}\nfn sum(x: []i32) -> i32\n{\n\treturn: x[0]\n}\nstruct Box\n{\n\tv: i32,\n}\n" \
+           "fn unbox(b: Box) -> i32\n{\n\treturn: b.v\n}\nfn row(x: []i32) -> i32\n{\n\treturn: x[0]\n}\n"
+    for b in [t for t in PRIMS if t != "i32"]:
+        decl = "var b: %s = %s;" % (b, lit_for(b))
+        out.append(("nested:array_literal_arg:%s" % b, wrap_main([decl, "var r: i32 = sum([half(1), half(b)]);"], pre=half), {512}))
+        out.append(("nested:struct_literal_arg:%s" % b, wrap_main([decl, "var r: i32 = unbox(Box { v: half(b) });"], pre=half), {512}))
+        out.append(("nested:index_of_row_arg:%s" % b, wrap_main([decl, "var m: [2][2]i32 = [[1, 2], [3, 4]];",
+                                                                  "var r: i32 = row(m[half(b)]);"], pre=half), {512, 504, 551}))
+    out.append(("nested:argc_in_array_literal_arg", wrap_main(["var r: i32 = sum([half(1), half(1, 2)]);"], pre=half), {511}))
+    out.append(("nested:argc_in_struct_literal_arg", wrap_main(["var r: i32 = unbox(Box { v: half() });"], pre=half), {510}))
+    mat = "fn corner(rows: [][4]i32) -> i32\n{\n\treturn: rows[1][0]\n}\nfn poke(rows: &[][4]i32)\n{\n\trows[1][0] = 9;\n}\n"
+    out.append(("inner_length:view", wrap_main(["var m: [2][3]i32 = [[1, 2, 3], [4, 5, 6]];", "var r: i32 = corner(m);"], pre=mat), {512}))
+    out.append(("inner_length:pointer", wrap_main(["var m: [2][3]i32 = [[1, 2, 3], [4, 5, 6]];", "poke(&m);"], pre=mat), {512, 513}))
+    out.append(("inner_length:element_type", wrap_main(["var m: [2][4]i64 = [[1, 2, 3, 4], [5, 6, 7, 8]];", "var r: i32 = corner(m);"], pre=mat), {512}))
     # argument count, including the empty argument list, in expression and statement position
     for nparams in (1, 2, 3):
         params = ", ".join("p%d: i32" % k for k in range(nparams))
